@@ -6,6 +6,8 @@ import (
 	"fmt"
 	"os"
 	"strings"
+	"sync"
+	"sync/atomic"
 	"testing"
 	"testing/synctest"
 	"time"
@@ -163,7 +165,10 @@ func TestWorker(t *testing.T) {
 		t.Fatal(err)
 	}
 	w := bufio.NewWriter(f)
+	var emitMu sync.Mutex
 	emit := func(l outLine) {
+		emitMu.Lock()
+		defer emitMu.Unlock()
 		b, _ := json.Marshal(l)
 		w.Write(b)
 		w.WriteByte('\n')
@@ -171,20 +176,20 @@ func TestWorker(t *testing.T) {
 	}
 	// wall-clock watchdog (outside every bubble): a task that neither yields
 	// nor blocks for 60 s is a non-termination
-	var curIdx, curSeed uint64
-	active := false
+	var curIdx, curSeed atomic.Uint64
+	var active atomic.Bool
 	go func() {
 		last := workerProgress.Load()
 		lastChange := time.Now()
 		for {
 			time.Sleep(2 * time.Second)
 			p := workerProgress.Load()
-			if p != last || !active {
+			if p != last || !active.Load() {
 				last, lastChange = p, time.Now()
 				continue
 			}
-			if time.Since(lastChange) > 60*time.Second {
-				emit(outLine{T: "hang", I: curIdx, Seed: curSeed})
+			if time.Since(lastChange) > 20*time.Second {
+				emit(outLine{T: "hang", I: curIdx.Load(), Seed: curSeed.Load()})
 				os.Exit(3)
 			}
 		}
@@ -214,10 +219,10 @@ func TestWorker(t *testing.T) {
 			dec = core.NewDecider(plan.Seed)
 		}
 		emit(outLine{T: "start", I: rf.RunIndex, Seed: plan.Seed})
-		active = true
+		active.Store(true)
 		traceOn = job.Trace
 		res := runOne(t, plan, dec, eng)
-		active = false
+		active.Store(false)
 		l := outLine{T: "run", I: rf.RunIndex, Seed: plan.Seed, Res: res, Plan: plan, Tape: res.Tape}
 		if job.Trace {
 			l.Trace = eng.Excerpt(0, 400)
@@ -246,7 +251,7 @@ func TestWorker(t *testing.T) {
 		} else {
 			dec = core.NewDecider(plan.Seed)
 		}
-		active = true
+		active.Store(true)
 		res := runOne(t, plan, dec, eng)
 		v := hasViolation(res, rf.Property, rf.Rule)
 		if v == nil {
@@ -260,7 +265,7 @@ func TestWorker(t *testing.T) {
 			budget = time.Duration(job.MaxRuns) * time.Second
 		}
 		mp, mt, mres, tried := Minimise(t, eng, plan, res.Tape, rf.Property, rule, budget)
-		active = false
+		active.Store(false)
 		mv := hasViolation(mres, rf.Property, rule)
 		out := rf
 		out.Plan, out.Tape, out.Rule, out.Minimised = mp, mt, rule, true
@@ -292,11 +297,12 @@ func TestWorker(t *testing.T) {
 		plan := GenPlan(prof, seed)
 		dec := core.NewDecider(seed)
 		dec.NoRecord = false
-		curIdx, curSeed = idx, seed
+		curIdx.Store(idx)
+		curSeed.Store(seed)
 		emit(outLine{T: "start", I: idx, Seed: seed})
-		active = true
+		active.Store(true)
 		res := runOne(t, plan, dec, eng)
-		active = false
+		active.Store(false)
 		nt := nontrivial(job.Prop, &res.Probes, res)
 		sum.Runs++
 		sum.Steps += int64(res.Steps)
